@@ -137,6 +137,15 @@ func ghost_last_notifyDeletion_key[K comparable]() K                       { pan
 func ghost_last_notifyDeletion_value[V any]() V                            { panic("ghost") }
 func ghost_last_notifyDeletion_cause() DeletionCause                       { panic("ghost") }
 func ghost_last_runTask_t[K comparable, V any]() *task[K, V]               { panic("ghost") }
+func ghost_calls_wait() int                                                { panic("ghost") }
+
+// the value received by the last gob Decode into an Entry (see the encoding/gob model)
+func ghost_decoded_Key[K comparable]() K     { panic("ghost") }
+func ghost_decoded_Value[V any]() V          { panic("ghost") }
+func ghost_decoded_ExpiresAtNano() int64     { panic("ghost") }
+func ghost_decoded_RefreshableAtNano() int64 { panic("ghost") }
+func ghost_decoded_Weight() uint32           { panic("ghost") }
+func ghost_last_wait_c[K comparable, V any]() *call[K, V]                  { panic("ghost") }
 func ghost_calls_expireNodes() int                                         { panic("ghost") }
 func ghost_calls_evictNodes() int                                          { panic("ghost") }
 func ghost_calls_DeleteExpired() int                                       { panic("ghost") }
@@ -391,13 +400,13 @@ func estOf[K comparable](s *sketch[K], k K) uint64 {
 //@ macro ONDEL = ghost_calls_onDeletion(), ghost_calls_notifyDeletion()
 //@ macro WHOOKS = ghost_calls_ExpireAfterCreate(), ghost_ret_ExpireAfterCreate(), ghost_calls_ExpireAfterUpdate(), ghost_ret_ExpireAfterUpdate(), ghost_calls_weigher(), ghost_ret_weigher(), $RHOOKS
 // footprint of a maintenance run: the policies, the wheel, the table (evictions), and the removal notifications of the entries it evicts
-//@ macro MAINT0 = node::state, node::queueType, node::prev, node::next, node::prevExp, node::nextExp, ghost_tbl(*), ghost_calls(*), ghost_inWheel(*), ghost_inDeque(*), policy::*, Variable::*, Linked::*, sketch::*, []uint64::*, cache::drainStatus, cache::evictionMutex, ghost_calls_evictNode(), ghost_calls_rand(), ghost_ret_rand(), $EVLOG, $ONDEL, $ATOMICEV
+//@ macro MAINT0 = node::state, node::queueType, node::prev, node::next, node::prevExp, node::nextExp, ghost_tbl(*), ghost_calls(*), ghost_inWheel(*), ghost_inDeque(*), policy::weightedSize, policy::windowMaximum, policy::windowWeightedSize, policy::mainProtectedMaximum, policy::mainProtectedWeightedSize, policy::stepSize, policy::adjustment, policy::hitsInSample, policy::missesInSample, policy::previousSampleHitRate, Variable::*, Linked::*, sketch::*, []uint64::*, cache::drainStatus, cache::evictionMutex, ghost_calls_evictNode(), ghost_calls_rand(), ghost_ret_rand(), $EVLOG, $ONDEL, $ATOMICEV
 // ... plus the call log of the maintenance steps and the clock reading of the sweep
 //@ macro MAINT = $MAINT0, ghost_calls_maintenance(), ghost_calls_runTask(), ghost_calls_expireNodes(), ghost_calls_evictNodes(), ghost_calls_DeleteExpired(), ghost_calls_deleteExpiredFromBucket(), ghost_calls_expireNode(), ghost_now(), ghost_clockRead()
 
 //@ macro CACHEFX = $MAINT, $EVLOG, $ONDEL, $ATOMICEV, $WHOOKS, ghost_calls(*), node::expiresAt, node::refreshableAt, ghost_wgDone(*), call::wg, ghost_calls_afterWrite(), ghost_calls_afterDelete(), ghost_queued(), ghost_calls_performCleanUp(), ghost_calls_afterWriteTask(), ghost_calls_runTask(), ghost_calls_getTask(), ghost_now(), ghost_clockRead(), ghost_calls_ExpireAfterRead(), ghost_ret_ExpireAfterRead(), task::*
 
-//@ macro LOADFX = $CACHEFX, call::value, call::err, call::isNotFound, ghost_calls_load(), ghost_calls_afterFinish(), ghost_calls_doCall(), ghost_calls_startCall(), ghost_loadSuccess(), ghost_loadFailure(), ghost_calls_fn(), ghost_ret_fn(), ghost_calls_Error()
+//@ macro LOADFX = $CACHEFX, call::value, call::err, call::isNotFound, ghost_calls_load(), ghost_calls_afterFinish(), ghost_calls_doCall(), ghost_calls_startCall(), ghost_loadSuccess(), ghost_loadFailure(), ghost_calls_fn(), ghost_ret_fn(), ghost_calls_Error(), ghost_calls_wait()
 
 //@ immutable Cache.cache, cache.nodeManager, cache.hashmap, cache.evictionPolicy, cache.expirationPolicy, cache.stats, cache.clock, cache.singleflight, cache.withTime, cache.withExpiration, cache.withRefresh, cache.withEviction, cache.isWeighted, cache.withMaintenance, cache.withStats, cache.onDeletion, cache.onAtomicDeletion, cache.expiryCalculator, cache.refreshCalculator, cache.weigher, cache.executor, cache.readBuffer, cache.writeBuffer, cache.hasDefaultExecutor, policy.isWeighted, policy.sketch, policy.window, policy.probation, policy.protected, group.calls, G:hasExp, G:hasRefresh, G:hasWeight, G:hasSize, G:hasState, G:hasExpLinks, G:key, G:value, G:weight, call.key, call.isRefresh, call.isFake
 
@@ -409,7 +418,7 @@ func estOf[K comparable](s *sketch[K], k K) uint64 {
 
 //@ func (*cache).drainReadBuffer : C05
 //@   assumed C17 is not applicable: applies the recorded reads to the policies (recency order, frequency, wheel position); it removes nothing and reports nothing
-//@   modifies node::queueType, node::prev, node::next, node::prevExp, node::nextExp, ghost_inWheel(*), ghost_inDeque(*), policy::*, Linked::*, sketch::*, []uint64::*
+//@   modifies node::queueType, node::prev, node::next, node::prevExp, node::nextExp, ghost_inWheel(*), ghost_inDeque(*), policy::weightedSize, policy::windowMaximum, policy::windowWeightedSize, policy::mainProtectedMaximum, policy::mainProtectedWeightedSize, policy::stepSize, policy::adjustment, policy::hitsInSample, policy::missesInSample, policy::previousSampleHitRate, Linked::*, sketch::*, []uint64::*
 //@   ensures [wiring-kept] pre(wired(c)) ==> wired(c)
 
 //@ func (*cache).drainWriteBuffer : C05 C06
@@ -420,7 +429,7 @@ func estOf[K comparable](s *sketch[K], k K) uint64 {
 
 //@ func (*cache).climb : C04 C05
 //@   assumed hill climber (floating-point arithmetic, outside the verifier's reach): moves entries between the window and the main queues; it removes nothing and reports nothing
-//@   modifies node::queueType, node::prev, node::next, ghost_inDeque(*), policy::*, Linked::*
+//@   modifies node::queueType, node::prev, node::next, ghost_inDeque(*), policy::weightedSize, policy::windowMaximum, policy::windowWeightedSize, policy::mainProtectedMaximum, policy::mainProtectedWeightedSize, policy::stepSize, policy::adjustment, policy::hitsInSample, policy::missesInSample, policy::previousSampleHitRate, Linked::*
 //@   ensures [wiring-kept] pre(wired(c)) ==> wired(c)
 
 //@ func (*cache).expireNodes : C13 C07 C06
@@ -1008,6 +1017,11 @@ func estOf[K comparable](s *sketch[K], k K) uint64 {
 //@   ensures [C10:error-recorded] c.err == err && c.isNotFound == errors.Is(err, ErrNotFound)
 //@   own-modifies c.value, c.err, c.isNotFound, ghost_calls_load()
 
+//@ func (*call).wait : C08
+//@   counted
+//@   note blocks until the call is finished (sync.WaitGroup.Wait); only the fact that it was invoked, and on which call, is recorded
+//@   ensures [wait-is-pure] true
+
 //@ func (*call).cancel : C08
 //@   modifies ghost_wgDone(c), c.wg
 //@   ensures [C08:release-once] ghost_wgDone(c) == pre(ghost_wgDone(c)) + pickInt(c.isFake, 0, 1)
@@ -1029,6 +1043,7 @@ func estOf[K comparable](s *sketch[K], k K) uint64 {
 //@   ensures [C06:atomic-once] c.onAtomicDeletion != nil ==> lpend(ghost_calls_onAtomicDeletion()) == lp(ghost_calls_onAtomicDeletion()) + pickInt(lpend(ghost_lpCur(c.hashmap)) != nil && lpend(ghost_lpNew(c.hashmap)) != lpend(ghost_lpCur(c.hashmap)), 1, 0)
 //@   ensures [C05:policy-told-iff-table-changed] ghost_calls_afterWrite() == pre(ghost_calls_afterWrite()) + pickInt(lpend(ghost_lpNew(c.hashmap)) != nil && lpend(ghost_lpNew(c.hashmap)) != lpend(ghost_lpCur(c.hashmap)), 1, 0) && ghost_calls_afterDelete() == pre(ghost_calls_afterDelete()) + pickInt(lpend(ghost_lpNew(c.hashmap)) == nil && lpend(ghost_lpCur(c.hashmap)) != nil, 1, 0)
 //@   ensures [wiring-kept] pre(wired(c)) ==> wired(c)
+//@   site cancel: requires [C08:waiters-released-only-after-the-record-is-gone] ghost_lpCount(c.hashmap) == pre(ghost_lpCount(c.hashmap)) + 1
 
 //@ func (*cache).wrapLoad : C20 C08
 //@   inline verified on its own and inlined at its call sites (the closure it runs is executed concretely)
@@ -1045,6 +1060,27 @@ func estOf[K comparable](s *sketch[K], k K) uint64 {
 
 //@ macro EVICTFX = cb_n.state, node::queueType, node::prev, node::next, node::prevExp, node::nextExp, ghost_inWheel(*), ghost_inDeque(*), policy::weightedSize, policy::windowWeightedSize, policy::mainProtectedWeightedSize, Linked::*, ghost_tbl(*), ghost_calls(*), $EVLOG, $ONDEL, $ATOMICEV
 //@ macro POLFX = node::state, node::queueType, node::prev, node::next, node::prevExp, node::nextExp, ghost_inWheel(*), ghost_inDeque(*), policy::weightedSize, policy::windowWeightedSize, policy::mainProtectedWeightedSize, policy::hitsInSample, policy::missesInSample, Linked::*, sketch::*, []uint64::*, ghost_tbl(*), ghost_calls(*), $EVLOG, $ONDEL, $ATOMICEV, ghost_calls_rand(), ghost_ret_rand()
+
+//@ func newPolicy : C04 C05
+//@   fresh
+//@   modifies policy::*, sketch::*, Linked::*
+//@   ensures [C05:policy-starts-well-formed] result != nil && wfPolicy(result) && result.sketch.isNotInitialized() && result.isWeighted == isWeighted && result.weightedSize == 0 && result.maximum == 0
+
+//@ func (*policy).setMaximumSize : C04
+//@   requires wfPolicy(p) && maximum <= 1<<62
+//@   modifies p.maximum, p.windowMaximum, p.mainProtectedMaximum, p.hitsInSample, p.missesInSample, p.stepSize, sketch::*, []uint64::*
+//@   ensures [C04:maximum-set] p.maximum == maximum
+//@   ensures [policy-wf-kept] wfPolicy(p)
+
+//@ func (*cache).SetMaximum : C04 C07
+//@   requires cfg(c) && maximum <= 1<<62
+//@   modifies *
+//@   site maintenance: requires [C04:bound-changed-before-eviction-runs] c.evictionPolicy.maximum == maximum
+//@   site rescheduleCleanUpIfIncomplete: requires [C04:eviction-ran-under-the-new-maximum] ghost_calls_evictNodes() == pre(ghost_calls_evictNodes()) + 1 && c.evictionPolicy.maximum == maximum
+//@   ensures [C04:new-maximum-in-force] c.withEviction ==> c.evictionPolicy.maximum == maximum
+//@   ensures [C07:unbounded-cache-ignores-it] !c.withEviction ==> ghost_calls_maintenance() == pre(ghost_calls_maintenance()) && ghost_calls_notifyDeletion() == pre(ghost_calls_notifyDeletion())
+//@   ensures [wiring-kept] wired(c)
+//@   ensures [clock-stable] pre(ghost_clockRead()) ==> ghost_clockRead() && ghost_now() == pre(ghost_now())
 
 //@ func (*policy).makeDead : C04 C05 C07
 //@   requires ghost_hasSize() && ghost_hasState() && n != nil
@@ -1073,6 +1109,7 @@ func estOf[K comparable](s *sketch[K], k K) uint64 {
 //@   ensures [C07:fits-not-evicted] uint64(weightOf(n)) <= p.maximum ==> ghost_calls_evictNode() == pre(ghost_calls_evictNode())
 //@   ensures [C05:add-links-alive-node] pre(alive(n)) && uint64(weightOf(n)) <= p.maximum ==> ghost_inDeque(p.window, n)
 //@   ensures [C05:out-of-order-add-not-linked] !pre(alive(n)) ==> ghost_calls_evictNode() == pre(ghost_calls_evictNode())
+//@   ensures [C04:added-weight-counted-exactly-once] ghost_calls_evictNode() == pre(ghost_calls_evictNode()) ==> p.weightedSize == pre(p.weightedSize) + uint64(weightOf(n))
 //@   ensures [C06:evictions-notified-one-to-one] $EVDELTA == pre($EVDELTA)
 //@   ensures [policy-wf-kept] wfPolicy(p)
 
@@ -1089,6 +1126,7 @@ func estOf[K comparable](s *sketch[K], k K) uint64 {
 //@   ensures [C07:fits-not-evicted] uint64(weightOf(n)) <= p.maximum ==> ghost_calls_evictNode() == pre(ghost_calls_evictNode())
 //@   ensures [C05:update-transplants] pre(alive(n)) && uint64(weightOf(n)) <= p.maximum ==> ghost_inDeque(queueOf(p, n), n)
 //@   ensures [C05:old-unlinked-and-dead] ghost_state(old) == 2
+//@   ensures [C04:updated-weight-counted-exactly-once] ghost_calls_evictNode() == pre(ghost_calls_evictNode()) ==> p.weightedSize == pre(p.weightedSize) + uint64(weightOf(n)) - pickU64(pre(ghost_state(old)) != 2, uint64(weightOf(old)), 0)
 //@   ensures [C06:evictions-notified-one-to-one] $EVDELTA == pre($EVDELTA)
 //@   ensures [policy-wf-kept] wfPolicy(p)
 
@@ -1147,6 +1185,7 @@ func estOf[K comparable](s *sketch[K], k K) uint64 {
 //@   loop 1: invariant [wiring-kept] c.cache != nil && cfg(c.cache) && c.cache.singleflight != nil
 //@   site Set: requires [C19:expired-not-loaded] !c.cache.withExpiration || entry.ExpiresAtNano > nowNano
 //@   site Set: requires [C19:bound-respected] size < maximum
+//@   site Set: requires [C19:loads-exactly-the-saved-entry] same(entry.Key, ghost_decoded_Key[K]()) && same(entry.Value, ghost_decoded_Value[V]()) && entry.ExpiresAtNano == ghost_decoded_ExpiresAtNano() && entry.RefreshableAtNano == ghost_decoded_RefreshableAtNano() && entry.Weight == ghost_decoded_Weight()
 //@   site SetExpiresAfter: requires [C19:deadline-restored] c.cache.withExpiration && entry.ExpiresAtNano != math.MaxInt64 && int64(expiresAfter) == entry.ExpiresAtNano-nowNano && expiresAfter > 0
 //@   site SetRefreshableAfter: requires [C19:refresh-restored-or-due] c.cache.withRefresh && entry.RefreshableAtNano != math.MaxInt64 && (entry.RefreshableAtNano > nowNano ==> int64(refreshableAfter) == entry.RefreshableAtNano-nowNano) && (entry.RefreshableAtNano >= 0 && entry.RefreshableAtNano <= nowNano ==> refreshableAfter == 1)
 
@@ -1192,6 +1231,7 @@ func estOf[K comparable](s *sketch[K], k K) uint64 {
 //@   ensures [C11:nil-if-unconfigured] !c.withRefresh ==> result == nil
 //@   ensures [C11:one-result-per-manual-call] c.withRefresh && isManual ==> result != nil && ghost_chanSent(result) == 1
 //@   ensures [C11:automatic-refresh-returns-no-channel] c.withRefresh && !isManual ==> result == nil
+//@   ensures [C08:refresh-waits-for-the-call-it-started-or-joined] c.withRefresh ==> ghost_calls_wait() == pre(ghost_calls_wait()) + 1 && ghost_last_wait_c[K, V]() == ghost_last_startCall_c[K, V]()
 //@   ensures [wiring-kept] pre(wired(c)) ==> wired(c)
 //@   site doCall: callback-invariant cfg(c) && c.singleflight.calls != nil && c.singleflight.isInitialized.Load()
 
@@ -1205,6 +1245,7 @@ func estOf[K comparable](s *sketch[K], k K) uint64 {
 //@   ensures [C11:stale-hit-serves-old-value-and-refreshes-once] liveAt(pre(ghost_tbl(c.hashmap, key)), pre(ghost_expiresAt(ghost_tbl(c.hashmap, key))), ghost_now()) && c.withRefresh && pre(ghost_refreshableAt(ghost_tbl(c.hashmap, key))) <= ghost_now() ==> ghost_calls_refreshKey() == pre(ghost_calls_refreshKey()) + 1 && same(r0, ghost_value(pre(ghost_tbl(c.hashmap, key))))
 //@   ensures [C10:miss-returns-the-outcome-of-the-call] !liveAt(pre(ghost_tbl(c.hashmap, key)), pre(ghost_expiresAt(ghost_tbl(c.hashmap, key))), ghost_now()) ==> ghost_calls_startCall() == pre(ghost_calls_startCall()) + 1 && same(r0, ghost_last_startCall_c[K, V]().value) && r1 == ghost_last_startCall_c[K, V]().err
 //@   ensures [C08:loads-iff-it-registered-the-call] !liveAt(pre(ghost_tbl(c.hashmap, key)), pre(ghost_expiresAt(ghost_tbl(c.hashmap, key))), ghost_now()) ==> ghost_calls_doCall() == pre(ghost_calls_doCall()) + pickInt(ghost_last_startCall_shouldLoad(), 1, 0)
+//@   ensures [C08:miss-waits-for-the-call-it-started-or-joined] !liveAt(pre(ghost_tbl(c.hashmap, key)), pre(ghost_expiresAt(ghost_tbl(c.hashmap, key))), ghost_now()) ==> ghost_calls_wait() == pre(ghost_calls_wait()) + 1 && ghost_last_wait_c[K, V]() == ghost_last_startCall_c[K, V]()
 //@   ensures [C20:one-lookup] ghost_hits()+ghost_misses() == pre(ghost_hits()+ghost_misses()) + 1
 //@   ensures [wiring-kept] pre(wired(c)) ==> wired(c)
 //@   site doCall: callback-invariant cfg(c) && c.singleflight.calls != nil && c.singleflight.isInitialized.Load()
